@@ -32,9 +32,13 @@ class Path:
         self.ranges: Dict[str, Poly] = ranges      # symbol < bound (and >= 0)
         self.fresh = fresh                         # itertools.count shared along a path
         self.ret = None
+        self.divcache = {}
 
     def fork(self):
-        return Path(dict(self.env), dict(self.assume), dict(self.defs), dict(self.ranges), self.fresh)
+        env = {k: (list(v) if isinstance(v, list) else v) for k, v in self.env.items()}
+        q = Path(env, dict(self.assume), dict(self.defs), dict(self.ranges), self.fresh)
+        q.divcache = dict(self.divcache)
+        return q
 
 
 def opaque_symbol(e: ast.AST) -> Optional[str]:
@@ -72,6 +76,8 @@ class SymInterp:
             return tuple(self.ev(x, p) for x in e.elts)
         if isinstance(e, ast.BinOp):
             l, r = self.ev(e.left, p), self.ev(e.right, p)
+            if isinstance(e.op, ast.Add) and isinstance(l, (list, tuple)) and isinstance(r, (list, tuple)) and type(l) == type(r):
+                return l + r
             if not isinstance(l, Poly) or not isinstance(r, Poly):
                 raise Undecided("arithmetic on non-integers: %s" % unparse(e))
             if isinstance(e.op, ast.Add):
@@ -101,6 +107,35 @@ class SymInterp:
             return self.divmod(a, b, p)
         if isinstance(e, ast.Call) and dotted(e.func) == "int" and len(e.args) == 1:
             return self.ev(e.args[0], p)
+        if isinstance(e, ast.List):
+            return [self.ev(x, p) for x in e.elts]
+        if isinstance(e, ast.Call) and dotted(e.func) == "len" and e.args:
+            try:
+                v = self.ev(e.args[0], p)
+            except Undecided:
+                v = None
+            if isinstance(v, (tuple, list)):
+                return Poly.const(len(v))
+        elif isinstance(e, ast.Call) and dotted(e.func) in ("reversed", "list", "tuple", "zip", "range", "enumerate") and e.args:
+            args = [self.ev(a, p) for a in e.args]
+            fnm = dotted(e.func)
+            if not all(isinstance(a, (tuple, list)) for a in args) and fnm != "range":
+                raise Undecided("%s of a non-sequence" % fnm)
+            if fnm == "reversed":
+                return tuple(reversed(args[0]))
+            if fnm == "list":
+                return list(args[0])
+            if fnm == "tuple":
+                return tuple(args[0])
+            if fnm == "zip":
+                return tuple(tuple(x) for x in zip(*args))
+            if fnm == "enumerate":
+                return tuple((Poly.const(i), x) for i, x in enumerate(args[0]))
+            if fnm == "range":
+                cs = [a.as_const() if isinstance(a, Poly) else None for a in args]
+                if any(c is None or c.denominator != 1 for c in cs):
+                    raise Undecided("symbolic range")
+                return tuple(Poly.const(i) for i in range(*[int(c) for c in cs]))
         sym = opaque_symbol(e)
         if sym is not None:
             return Poly.sym(sym)
@@ -113,6 +148,14 @@ class SymInterp:
     def divmod(self, a: Poly, n: Poly, p: Path):
         if not isinstance(a, Poly) or not isinstance(n, Poly) or len(n.t) != 1:
             raise Undecided("divmod by a non-monomial")
+        ck = (a, n)
+        if ck in p.divcache:
+            return p.divcache[ck]
+        res = self._divmod(a, n, p)
+        p.divcache[ck] = res
+        return res
+
+    def _divmod(self, a: Poly, n: Poly, p: Path):
         quo, rem = Poly(), Poly()
         for m, c in a.t.items():
             term = Poly({m: c})
@@ -177,6 +220,10 @@ class SymInterp:
                     return l == r
                 if isinstance(op, (ast.NotEq, ast.IsNot)):
                     return l != r
+            if isinstance(l, Poly) and isinstance(r, Poly) and l.as_const() is not None and r.as_const() is not None \
+                    and isinstance(op, (ast.Eq, ast.NotEq, ast.Lt, ast.LtE, ast.Gt, ast.GtE)):
+                a, b = l.as_const(), r.as_const()
+                return {ast.Eq: a == b, ast.NotEq: a != b, ast.Lt: a < b, ast.LtE: a <= b, ast.Gt: a > b, ast.GtE: a >= b}[type(op)]
             if isinstance(l, Poly) and isinstance(r, Poly) and isinstance(op, (ast.Eq, ast.NotEq)):
                 key = (l - r).subst(p.defs)
                 neg = isinstance(op, ast.NotEq)
@@ -274,6 +321,27 @@ class SymInterp:
             return self.block(st.body, [pt], done) + self.block(st.orelse, [pf], done)
         if isinstance(st, ast.Expr) and isinstance(st.value, ast.Constant):
             return [p]
+        if isinstance(st, ast.Expr) and isinstance(st.value, ast.Call) and isinstance(st.value.func, ast.Attribute) \
+                and st.value.func.attr == "append" and isinstance(st.value.func.value, ast.Name) and len(st.value.args) == 1:
+            lst = p.env.get(st.value.func.value.id)
+            if not isinstance(lst, list):
+                raise Undecided("append on a non-list")
+            p.env[st.value.func.value.id] = lst + [self.ev(st.value.args[0], p)]
+            return [p]
+        if isinstance(st, ast.For):
+            it = self.ev(st.iter, p)
+            if not isinstance(it, (tuple, list)):
+                raise Undecided("loop over a symbolic sequence")
+            paths = [p]
+            for x in it:
+                nxt = []
+                for q in paths:
+                    self.assign(st.target, x, q)
+                    nxt.extend(self.block(st.body, [q], done))
+                paths = nxt
+            return paths
+        if isinstance(st, ast.Raise):
+            return []
         if isinstance(st, ast.Pass):
             return [p]
         raise Undecided("statement %s" % unparse(st)[:80])
